@@ -43,6 +43,7 @@ type vfMuxState struct {
 	idles    int
 	returned int
 	needLate string // set when time had to advance past a pending caller's deadline at quiescence
+	reqWritten int  // request frames the peer has received
 }
 
 type vfMuxCfg struct {
@@ -53,6 +54,8 @@ type vfMuxCfg struct {
 	wstall   int   // index of the pipe write that never returns (-1: none)
 	fstall   int   // index of the pipe flush that never returns (-1: none)
 	werr     int   // index of the pipe write that fails (-1: none)
+	oneway   bool  // callers use Oneway instead of Request
+	burst    bool  // the peer sends the whole sequence at once, after every caller's request arrived
 }
 
 func vfParseMuxCfg(s string) vfMuxCfg {
@@ -74,6 +77,10 @@ func vfParseMuxCfg(s string) vfMuxCfg {
 			c.fstall, _ = strconv.Atoi(p[1])
 		case "we":
 			c.werr, _ = strconv.Atoi(p[1])
+		case "call":
+			c.oneway = p[1] == "oneway"
+		case "burst":
+			c.burst = p[1] == "1"
 		case "f":
 			for _, t := range strings.Split(p[1], ".") {
 				if t == "u" {
@@ -118,7 +125,10 @@ func vfMuxMake(scn string) (func(), func(*vsched.Exec) (string, *vsched.Violatio
 			if st.framesK >= len(cfg.frames) {
 				return false // sequence exhausted: the peer is silent from now on
 			}
-			allowIdle := st.returned < cfg.n && st.idles < 2*cfg.n+1
+			if cfg.burst && st.reqWritten < cfg.n {
+				return false // a burst starts once every request has reached the peer
+			}
+			allowIdle := !cfg.burst && st.returned < cfg.n && st.idles < 2*cfg.n+1
 			if allowIdle && vsched.Choose(2) == 1 {
 				st.idles++ // the next frame arrives only after one more client-side event
 				return false
@@ -148,9 +158,19 @@ func vfMuxMake(scn string) (func(), func(*vsched.Exec) (string, *vsched.Violatio
 			}
 			p.inbound = append(p.inbound, vfFrame(map[string]string{"_opid": op, "_cid": "x"}, []byte(mark))...)
 			st.framesK++
+			if cfg.burst && st.framesK < len(cfg.frames) {
+				return p.next(p) // the rest of the burst is already on the wire
+			}
 			return true
 		}
 		nw, nf := 0, 0
+		if cfg.burst {
+			p.onFlush = func(p *vfPipe) error {
+				st.reqWritten++
+				p.event()
+				return nil
+			}
+		}
 		if cfg.wstall >= 0 || cfg.werr >= 0 {
 			p.onWrite = func(p *vfPipe, b []byte) error {
 				nw++
@@ -201,7 +221,13 @@ func vfMuxMake(scn string) (func(), func(*vsched.Exec) (string, *vsched.Violatio
 				c.start = vsched.Current().Now()
 				c.tid = vsched.Current().CurThread().ID
 				c.started = true
-				res, err := tr.Request(c.ctx, payload)
+				var res thrift.TTransport
+				var err error
+				if cfg.oneway {
+					err = tr.Oneway(c.ctx, payload)
+				} else {
+					res, err = tr.Request(c.ctx, payload)
+				}
 				c.retClock = vsched.Current().Now() - c.start
 				c.done = true
 				switch {
@@ -216,6 +242,8 @@ func vfMuxMake(scn string) (func(), func(*vsched.Exec) (string, *vsched.Violatio
 					} else {
 						c.outcome = "err:" + err.Error()
 					}
+				case res == nil && cfg.oneway:
+					c.outcome = "sent"
 				case res == nil:
 					c.outcome = "nil"
 				default:
@@ -299,6 +327,8 @@ func vfMuxMake(scn string) (func(), func(*vsched.Exec) (string, *vsched.Violatio
 				if e.EarlyTimers == 0 && cfg.wstall < 0 && cfg.fstall < 0 && cfg.werr < 0 && c.retClock > int64(c.timeout) {
 					viol("C13/late-timeout", fmt.Sprintf("caller%d reported TIMED_OUT %dns after the call although its timeout is %s, no timer fired early and nothing stalled", i, c.retClock, c.timeout))
 				}
+			case c.outcome == "sent" && cfg.oneway:
+				// a oneway call returns once the request is written
 			default:
 				if cfg.werr >= 0 && strings.HasPrefix(c.outcome, "terr") {
 					break // the injected write failure is reported to exactly the caller whose write failed
@@ -385,6 +415,16 @@ func init() {
 				for _, f := range []string{"", "1", "2", "1.2", "2.1"} {
 					out = append(out, "n=2,t=1/5,"+fault+",f="+f)
 				}
+			}
+			// oneway calls: healthy peer, stalled write / flush, failing write
+			for _, fault := range []string{"", "ws=0,", "ws=1,", "fs=0,", "fs=1,", "we=0,"} {
+				out = append(out, "n=2,t=1/5,call=oneway,"+fault+"f=")
+			}
+			out = append(out, "n=2,t=1/5,call=oneway,f=1.u")
+			// bursts of frames nobody waits for (unknown op ids, duplicates) in front of a wanted response
+			many := func(tok string, n int) string { return strings.TrimSuffix(strings.Repeat(tok+".", n), ".") }
+			for _, f := range []string{many("u", 12) + ".2", many("u", 16) + ".2.1", "2." + many("2", 12) + ".1", many("u", 6) + "." + many("1", 7) + ".2"} {
+				out = append(out, "n=2,t=5/5,burst=1,f="+f)
 			}
 			if tier == "thorough" {
 				for _, f := range seqs(2, 4) {
